@@ -191,9 +191,10 @@ fn c11b_reference_sparc() { bcj_reference(Arch::Sparc); }
 // calls (the decoder sees one contiguous stream and converts instructions at stream-relative positions).
 fn bcj_writer_split_arm(c: usize) {
     let x: [u8; 8] = kani::any();
-    let mut one = BCJWriter::new_arm(Sink::<16>::new(), 0);
+    let (mut s1, mut s2) = (Sink::<16>::new(), Sink::<16>::new()); // sinks outside the writers (see xz_reader.rs)
+    let mut one = BCJWriter::new_arm(&mut s1, 0);
     assert!(matches!(one.write(&x), Ok(8)));
-    let mut two = BCJWriter::new_arm(Sink::<16>::new(), 0);
+    let mut two = BCJWriter::new_arm(&mut s2, 0);
     assert!(matches!(two.write(&x[..c]), Ok(k) if k == c));
     assert!(matches!(two.write(&x[c..]), Ok(k) if k == 8 - c));
     let a = one.into_inner();
@@ -228,7 +229,8 @@ fn c11d_bcj_reader_roundtrip_split_arm() {
     let mut e = BCJFilter::new_arm(start as usize, true);
     let n = e.code(&mut y);
     assert!(n == 8);
-    let mut r = BCJReader::new_arm(Src::<8>::full(y), start as usize);
+    let mut src = Src::<8>::full(y);
+    let mut r = BCJReader::new_arm(&mut src, start as usize);
     let mut out = [0u8; 8];
     let k: usize = kani::any();
     kani::assume(k <= 8);
@@ -266,7 +268,7 @@ fn c05f_bcj_reader_interrupted() {
     let x: [u8; 8] = kani::any();
     let mut src = FaultySrc::<8>::new(x, 8);
     src.intr_at = 0;
-    let mut r = BCJReader::new_arm(src, 0);
+    let mut r = BCJReader::new_arm(&mut src, 0);
     let mut out = [0u8; 8];
     let first = r.read(&mut out);
     assert!(matches!(first, Err(crate::Error::Interrupted)));
